@@ -727,6 +727,13 @@ def evaluate_smt_formula(
             return Some(ThreeValuedTruth.false())
 
     def fallback(_) -> Maybe[ThreeValuedTruth]:
+        if any(
+            assignments[variable][1].is_open()
+            for variable in formula.free_variables()
+            if variable in assignments
+        ):
+            return Some(ThreeValuedTruth.unknown())
+
         return Some(
             is_valid(
                 z3.substitute(
